@@ -23,7 +23,8 @@ def make_example(focus):
     def example(draw, tier):
         flavor = draw(st.sampled_from(FLAVORS))
         memb = draw(st.integers(0, 1)) if flavor in ("memb", "bp") else 1
-        prog, nops = gen.crcu_program(draw, tier, flavor, focus)
+        f = draw(st.sampled_from(focus)) if isinstance(focus, (list, tuple)) else focus
+        prog, nops = gen.crcu_program(draw, tier, flavor, f)
         head = ["scen crcu_" + flavor, "cfg membarrier %d" % memb]
         out = []
         for _ in range(gen.BATCH):
